@@ -514,7 +514,7 @@ class NonRigidTransform(SpatialTransform):
         u = getattr(self, "u", None)
         if u is None:
             u = getattr(self.update(), "u", None)
-        if u is None or "u" not in {name for name, _, in self.named_buffers()}:
+        if u is None or "u" not in self._buffers:
             raise AssertionError(
                 f"{type(self).__name__}.update() required to register"
                 " displacement vector field tensor as buffer named 'u'."
